@@ -16,6 +16,7 @@ import TickitModel.Core.IoBox
 import TickitModel.Core.Command
 import TickitModel.Core.Zmq
 import TickitModel.Core.Config
+import TickitModel.Core.Flatten
 
 open Lean Tickit
 
@@ -134,6 +135,7 @@ def opSim (j : Json) : Json :=
     levels := levels,
     systems := (jarr (jfield j "systems")).map jstr,
     parent := (jpairs (jfield j "parent")).map (fun (a, b) => (jstr a, jstr b)) }
+  let S : Static := if jbool (jfield j "flatten") then S.flatten (S.levels.length + 2) else S
   let orc : Oracle := (jpairs (jfield j "oracle")).map (fun (c, rs) => (jstr c, (jarr rs).map jResp))
   let t0 := jint (jfield j "t0")
   let r0 := jint (jfield j "r0")
@@ -147,7 +149,8 @@ def opSim (j : Json) : Json :=
     match masterRun S orc fuel sp (4 * nTicks + 4 * stims.length + 8) nTicks m stims [tr] with
     | .error e => Json.mkObj [("err", simErrStr e)]
     | .ok (m', ticks) =>
-      Json.mkObj [("ticks", Json.arr (ticks.map outTick).toArray),
+      Json.mkObj [("flat_conns", match S.level "" with | some L => outConns L.wiring | none => Json.null),
+                  ("ticks", Json.arr (ticks.map outTick).toArray),
                   ("obs", Json.arr (m'.sim.obs.map outObs).toArray),
                   ("wake", outChanges ((m'.sim.sched "").wake))]
 
